@@ -96,3 +96,150 @@ def check_filters(prop, tier, replay):
         "LabelSelector with invalid expressions (panics by contract) and NSName entries with both fields empty are outside the universe",
     ]
     return res.finish()
+
+
+JCFG = "SPECIFICATION Spec\nINVARIANT Done\nCHECK_DEADLOCK FALSE\n"
+JOIN_CLASSES = {"join-ready-before-sides", "join-list-error", "join-not-ready", "join-content-before-ready", "join-selection", "rc-selection",
+                "join-duplicates", "join-events-not-delta", "join-close-hangs", "join-close-stops-base", "join-leak", "join-error", "crash"}
+
+
+@family("C09")
+def check_joins(prop, tier, replay):
+    res = vlib.Result(prop, tier, "model_checking")
+    sc = vlib.scratch()
+    h = vlib.build_harness()
+    nproc = 9
+    per = 9 if tier == "quick" else 90
+    cmds, files = [], []
+    for p in range(nproc):
+        out = os.path.join(sc, "join-%d.ndjson" % p)
+        files.append(out)
+        # process p, scenario i uses join (i + seed) mod 9: every process covers several joins, all processes all nine
+        cmds.append(([h, "join", "-out", out, "-count", str(per), "-steps", "30", "-seed", str(vlib.seed() * 50 + p)], out + ".log", None))
+    t0 = time.time()
+    rcs = vlib.run_parallel(cmds, timeout=1500)
+    good = []
+    for rc, f in zip(rcs, files):
+        lg = open(f + ".log").read()
+        if rc != 0:
+            if "panic" in lg or "fatal error" in lg:
+                res.classify("crash", "join driver died: " + lg[:1800])
+                continue
+            raise Inconclusive("join driver failed rc=%s: %s" % (rc, lg[-800:]))
+        good.append(f)
+    log("C09: %d join scenarios on the real code in %.1fs" % (per * nproc, time.time() - t0))
+    d = vlib.tlc_dir(None)
+    cfgp = os.path.join(d, "j.cfg")
+    open(cfgp, "w").write(JCFG)
+    tl = [(vlib.tlc_argv(d, "JoinRecords.tla", cfgp, workers=1, heap="2g", procs=2), f + ".tlc", {"VT_TRACE": f}, d) for f in good]
+    rcs = vlib.run_parallel(tl, timeout=1500, maxpar=9)
+    lines = snaps = 0
+    joins = set()
+    samples = []
+    for rc, f in zip(rcs, good):
+        out = open(f + ".tlc").read()
+        nrec = sum(1 for _ in open(f))
+        m = re.search(r'<<"CONSUMED", (\d+)>>', out)
+        if rc != 0 or not m or int(m.group(1)) != nrec:
+            raise Inconclusive("TLC did not consume %s: %s" % (f, out[-2000:]))
+        lines += nrec
+        for (ln, cls, txt) in vlib.verdicts(out):
+            if cls in JOIN_CLASSES:
+                res.classify(cls, txt, artefact={"file": os.path.basename(f), "line": ln, "seed": vlib.seed()})
+        for line in open(f):
+            r = json.loads(line)
+            joins.add(r.get("join"))
+            if r["k"] == "join.snap":
+                snaps += 1
+                if len(samples) < 2 and r["joined"]:
+                    samples.append(r)
+    if len(joins) < 9:
+        raise Inconclusive("not every join was exercised: %s" % sorted(joins))
+    res.coverage = {
+        "states": lines, "transitions": lines, "traces_validated_against_impl": per * nproc, "samples": samples,
+        "evaluations": snaps, "distinct_nontrivial": snaps,
+        "rule": "seeded source/destination histories (sources that appear, change selector, disappear; pods with all label maps over 2 keys x 2 values in 2 namespaces) for each of the 8 generated joins and IngressPods; one record per quiescence; 2-3 create/close cycles of the join over long-lived base controllers with a goroutine census",
+        "joins": sorted(joins), "snapshots": snaps,
+        "checker_cmd": "tlc trace/JoinRecords.tla over records of `harness join`",
+    }
+    res.assumptions = [
+        "selection rule: Filters.tla WSelects (same namespace; service: non-empty map selector; others: LabelSelector or, lacking one, template labels); double join: pods selected by services that are backends of an ingress of their namespace",
+        "the join's opaque filters are judged through the join's cache content at quiescence, not through the hook trace",
+    ]
+    return res.finish()
+
+
+TYPED_CLASSES = {"typed-request-path", "typed-request-query", "typed-request-count", "typed-readiness-differs", "typed-lifecycle-differs",
+                 "typed-returns-foreign-object", "typed-nil-event", "typed-events-differ", "typed-nil-in-list", "typed-cache-differs",
+                 "typed-monitor-nil-callback", "typed-monitor-differs", "typed-monitor-protocol", "typed-leak", "typed-error", "crash"}
+
+
+def run_typed(res, tier, want):
+    sc = vlib.scratch()
+    h = vlib.build_harness()
+    nproc = 8
+    rounds = 3 if tier == "quick" else 40
+    cmds, files = [], []
+    for p in range(nproc):
+        out = os.path.join(sc, "typed-%d.ndjson" % p)
+        files.append(out)
+        cmds.append(([h, "typed", "-out", out, "-rounds", str(rounds), "-seed", str(vlib.seed() * 50 + p)], out + ".log", None))
+    rcs = vlib.run_parallel(cmds, timeout=1500)
+    good = []
+    for rc, f in zip(rcs, files):
+        lg = open(f + ".log").read()
+        if rc != 0:
+            if "panic" in lg or "fatal error" in lg:
+                res.classify("crash", "typed driver died (an object of another type must be skipped, not crash): " + lg[:1800])
+                continue
+            raise Inconclusive("typed driver failed rc=%s: %s" % (rc, lg[-800:]))
+        good.append(f)
+    d = vlib.tlc_dir(None)
+    cfgp = os.path.join(d, "t.cfg")
+    open(cfgp, "w").write(JCFG)
+    tl = [(vlib.tlc_argv(d, "TypedRecords.tla", cfgp, workers=1, heap="2g", procs=2), f + ".tlc", {"VT_TRACE": f}, d) for f in good]
+    rcs = vlib.run_parallel(tl, timeout=1500, maxpar=8)
+    lines = snaps = reqs = 0
+    pkgs = set()
+    samples = []
+    for rc, f in zip(rcs, good):
+        out = open(f + ".tlc").read()
+        nrec = sum(1 for _ in open(f))
+        m = re.search(r'<<"CONSUMED", (\d+)>>', out)
+        if rc != 0 or not m or int(m.group(1)) != nrec:
+            raise Inconclusive("TLC did not consume %s: %s" % (f, out[-2000:]))
+        lines += nrec
+        for (ln, cls, txt) in vlib.verdicts(out):
+            if cls in want:
+                res.classify(cls, txt, artefact={"file": os.path.basename(f), "line": ln, "seed": vlib.seed()})
+        for line in open(f):
+            r = json.loads(line)
+            pkgs.add(r.get("pkg"))
+            if r["k"] == "typed.snap":
+                snaps += 1
+                if len(samples) < 1 and r["tag"] == "end":
+                    samples.append(r)
+            if r["k"] == "typed.req":
+                reqs += 1
+                if len(samples) < 3 and r["op"] == "watch" and r["ns"]:
+                    samples.append(r)
+    if len(pkgs) < 12:
+        raise Inconclusive("not every typed package was exercised: %s" % sorted(pkgs))
+    return dict(lines=lines, snaps=snaps, reqs=reqs, pkgs=pkgs, samples=samples)
+
+
+@family("C20")
+def check_typed(prop, tier, replay):
+    res = vlib.Result(prop, tier, "other")
+    st = run_typed(res, tier, TYPED_CLASSES)
+    lines, snaps, reqs, pkgs, samples = st["lines"], st["snaps"], st["reqs"], st["pkgs"], st["samples"]
+    res.coverage = {
+        "explanation": "Decided with the specification: (a) behavioural faithfulness - for all 12 typed packages the same seeded scenario (creates, updates, deletes, an object of another type on the stream, gated first list, close) is observed through the typed controller / subscription / cache / monitor and through the untyped core side by side, and TLC requires the typed view to equal the untyped view restricted to the type; (b) for all 12 typed clients the List and Watch requests (namespaced and all-namespaces) recorded by an in-memory HTTP transport are compared by TLC with the resource table in TypedRecords.tla. NOT decided: the clause 'the generated sources equal their templates instantiated for the type' is a statement about program text and has no counterpart in a state-machine specification (DESIGN.md section 6).",
+        "evaluations": snaps + reqs, "distinct_nontrivial": snaps + reqs,
+        "samples": samples, "packages": sorted(pkgs), "snapshots": snaps, "requests": reqs,
+        "states": lines, "transitions": lines,
+        "checker_cmd": "tlc trace/TypedRecords.tla over records of `harness typed`",
+    }
+    res.assumptions = ["both controllers list the same server state (no mutation until both are ready), so their event sequences are comparable element by element",
+                       "generated joins are covered behaviourally by C09"]
+    return res.finish()
